@@ -13,7 +13,7 @@ CHECKS = {
     'C04': ('exploration', 'stateful property testing with a drop ledger (individually identified values)',
             'Every value carries a serial registered in a thread-local ledger; after every operation the live set must equal what the reference maps hold, values leaving a world must be dropped in that very step (also checked independently of any snapshot), copies must be fresh, ragged batches must be refused with every value dropped, and nothing may be alive after the last world is dropped. Second part: for edited serializations (the C11 generator) a failed deserialization must have dropped every value it constructed; recorded error paths are excluded by construction.'),
     'C05': ('exploration', 'stateful property testing under a checking global allocator with self-validating payloads',
-            'Histories biased to growth/shrink patterns run under a tracking allocator (layout check on free/realloc, canaries, poison + quarantine, leak accounting of library allocations) with payloads that validate type tag, serial and derived data on every read; a fatal signal under a safe history is reported as a violation with the running case as replay. The thorough tier adds a coverage-guided libFuzzer + AddressSanitizer campaign over the same interpreter and oracles, and replays a seeded sample of generated histories under the Miri interpreter (out-of-bounds, dangling, never-written, misaligned accesses; wrong-layout frees; leaks).'),
+            'Histories biased to growth/shrink patterns (with parallel queries and parallel systems on two of the eight registries) run under a tracking allocator (layout check on free/realloc, canaries, poison + quarantine, leak accounting of library allocations) with payloads that validate type tag, serial and derived data on every read; a fatal signal under a safe history is reported as a violation with the running case as replay. The thorough tier adds a coverage-guided libFuzzer + AddressSanitizer campaign over the same interpreter and oracles, and replays a seeded sample of generated histories under the Miri interpreter (out-of-bounds, dangling, never-written, misaligned accesses; wrong-layout frees; leaks).'),
     'C06': ('exploration', 'round-trip property testing in five encodings with lock-step differential execution',
             'Worlds reached by generated histories are serialized and deserialized (JSON; token streams human-readable/compact x struct/seq), must compare equal and hold the same contents, and the deserialized twin then executes the rest of the history in lock step with the original (same identifiers, same snapshots), including chained round trips.'),
     'C10': ('exploration', 'stateful property testing over several worlds with clone / clone_from',
